@@ -17,7 +17,7 @@ func init() {
 			"(segmentStack.get, hence segmentStack.Get and everything that returns its result). A call of a further lookup on another (older) source that is control-dependent on the nil result " +
 			"of a conflating lookup is a violation: a tombstone or a Merge resolved against the newer section alone lets the older value resurface.",
 		Props: []string{"C10", "C08", "C01"},
-		Floor: 2,
+		Floor: 1,
 		Run:   ruleTomb,
 	})
 	register(&Rule{
